@@ -413,10 +413,10 @@ theorem insertNew_eff {AS : Loc → Prop} (st : State) (c : Var) (pos : Nat)
     refine ⟨_, rfl, ?_⟩
     by_cases hc : (st1.nodes c).free.isEmpty = true
     · rw [if_pos hc]
-      refine ⟨[.alloc st1.next 4], (eff_alloc st1 4).setNode c _, Or.inr ?_, ?_, ?_, rfl, ?_⟩
+      refine ⟨[.alloc st1.next (st1.per.f c.k)], (eff_alloc st1 (st1.per.f c.k)).setNode c _, Or.inr ?_, ?_, ?_, rfl, ?_⟩
       · intro it hit
         simp only [allocBlock, setNode_get] at hit
-        exact ((newSlots_mem c.k st1.next it).mp hit).1
+        exact ((newSlots_mem _ c.k st1.next it (st1.per.pos c.k)).mp hit).1
       · simp only [allocBlock, setNode_get]
       · intro c' hc'; simp only [allocBlock, setNode_nodes, upd_other _ _ _ _ hc', alloc_nodes]
       · intro e he; simp only [List.mem_singleton] at he; exact ⟨_, _, he⟩
